@@ -66,6 +66,7 @@ type FuncSpec struct {
 	Invariants []*Clause
 	Modifies    []string
 	ModifiesAll bool
+	HasModifies bool // a modifies clause is present (possibly "modifies nothing")
 	Macros      map[string]*Macro
 	Ghosts      []*GhostDecl
 	OnCalls     []*OnCall
@@ -374,9 +375,10 @@ func (cs *Contracts) clause(cur *FuncSpec, word, rest, file string, line int) {
 			cur.Invariants = append(cur.Invariants, cl)
 		}
 	case "modifies":
+		cur.HasModifies = true
 		for _, h := range strings.Split(rest, ",") {
 			h = strings.TrimSpace(h)
-			if h == "" {
+			if h == "" || h == "nothing" {
 				continue
 			}
 			if h == "*" {
